@@ -68,6 +68,8 @@ def main(rep, tier, only):
     rep.rule("NOERASE", "no erase / clear / pop / release / sort / swap on the context tree anywhere in the log library", floor=1)
     rep.rule("INH-1", "find_or_create_child constructs the new child with the level of the node it is pushed into", floor=1)
     rep.rule("SET-1", "context::set assigns the given level to every node of make_pre_order(located subtree)", floor=1)
+    rep.rule("ENC", "level encoding: convert_level maps a level to its own number and `no level` to a number that is not an enumerator; "
+                    "context_tree_node stores through convert_level and reads back through enum_::from_int", floor=3)
     rep.rule("GET-1", "context::get walks the location from the root while children exist (a missing component ends the walk) and reports the level of the last node reached", floor=1)
     rep.rule("FMT", "formatter chain in the documented order: chain(parent, child) = parent . child; object = chain(own formatter, location prefix); "
                     "level_stream::log = chain(additional, level formatter); the prefix folds to the root with ancestors first", floor=4)
@@ -267,6 +269,48 @@ def main(rep, tier, only):
             else:
                 rep.fail("EN-1", "object::enabled|" + nm, F.primary_site(fn), F.fn_name(fn),
                          why="decision table row differs from the specification", detail={"paths": [p.show() for p in paths]})
+    # ENC: "no level" is stored as a number that is NOT an enumerator, and decoded by enum_::from_int (nothing for such a number)
+    ecfg = sx.Config(inline_prefixes=("fcppt::optional::", "fcppt::cond", "fcppt::const_", "fcppt::detail::const_", "fcppt::cast::"), loop_bound=2)
+    nvals = None
+    for u2 in db.units:
+        for e in u2.enums:
+            if e["qn"] == "fcppt::log::level":
+                nvals = len(set(int(x["value"]) for x in e["enumerators"]))
+    for fn in db.fns("fcppt::log::impl::convert_level")[:1]:
+        why = None
+        try:
+            ps = sx.Interp(db, ecfg).paths(fn)
+        except sx.Unsupported as e:
+            rep.broken("convert_level outside the interpreted fragment: %s" % e)
+            ps = []
+        rows = {}
+        for p_ in ps:
+            dec = {sx.show(a): b for a, b in p_.decisions}
+            hv = [b for a, b in dec.items() if a.startswith("has_value(")]
+            rows[hv[0] if hv else None] = sx.show(p_.outcome[1])
+        if nvals is None:
+            why = "enum fcppt::log::level not found"
+        elif set(rows) != {True, False}:
+            why = "the encoding does not distinguish a level from no level (%s)" % rows
+        else:
+            m = re.search(r"(\d+)", rows[False])
+            if not m or int(m.group(1)) < nvals:
+                why = "`no level` is encoded as %s, which is the number of an enumerator (the enum has %d): a disabled location reads back as that level" % (rows[False], nvals)
+            elif "enum_to_int" not in rows[True] and "some_payload" not in rows[True]:
+                why = "a level is not encoded as its own number: %s" % rows[True]
+        (rep.fail if why else rep.ok)("ENC", "impl::convert_level", F.primary_site(fn), F.fn_name(fn), **({"why": why} if why else {"how": "level -> its number; nothing -> %s (outside 0..%d)" % (rows[False], nvals - 1)}))
+    for fn in L.method_fns(db, "fcppt::log::detail::context_tree_node", "level"):
+        u = fn["_unit"]
+        rets = [T.show(T.snorm(u, fn, r["e"])) for r in F.walk(fn.get("body"), into_lambdas=False) if r.get("k") == "return"]
+        if not fn.get("params"):
+            ok = len(rets) == 1 and re.match(r"^from_int\((this\.)?atomic_level_\.load\([\w:]*\)\)$", rets[0].replace(" ", "")) is not None
+            (rep.ok if ok else rep.fail)("ENC", "context_tree_node::level()", F.primary_site(fn), F.fn_name(fn),
+                                         **({"how": "enum_::from_int(atomic_level_.load())"} if ok else {"why": "the stored number is decoded as %s, expected enum_::from_int<level>(atomic_level_.load())" % rets}))
+        else:
+            asg = [T.show(T.norm(u, n)) for n in F.walk(fn.get("body")) if n.get("k") in ("assign", "call") and "atomic_level_" in T.show(T.norm(u, n)) and "convert_level" in T.show(T.norm(u, n))]
+            ok = len(asg) >= 1 and ("convert_level(%s)" % fn["params"][0]["name"]) in asg[0]
+            (rep.ok if ok else rep.fail)("ENC", "context_tree_node::level(optional_level)", F.primary_site(fn), F.fn_name(fn),
+                                         **({"how": "atomic_level_ = convert_level(level)"} if ok else {"why": "the level is not stored through convert_level"}))
     # GET-1: context::get follows the location from the root as long as children exist and reports the level of the last node reached
     gcfg = sx.Config(inline_prefixes=("fcppt::optional::", "fcppt::algorithm::", "fcppt::loop::", "fcppt::cond", "fcppt::const_", "fcppt::detail::const_",
                                       "fcppt::log::context::root", "fcppt::make_cref", "fcppt::reference::"), loop_bound=2)
